@@ -119,6 +119,32 @@ Theorem C04_links_self_append_keeps_wf_but_cycles : forall dbg,
 Proof. exact append_self_wf_cycle. Qed.
 Print Assumptions C04_links_self_append_keeps_wf_but_cycles.
 
+(* ---- abstraction to children lists (kids h p l: l is the list of nodes met from first_child(p)
+   along next_sibling) commutes with detach and append; no acyclicity is needed at this level.  The
+   rose tree of a node is the unfolding of kids and exists (is finite) exactly when there is no
+   parent cycle below it; that unfolding is not formalised here. *)
+Theorem C04_links_children_list_unique : forall h p, wf h ->
+  exists l, kids h p l /\ forall l', kids h p l' -> l' = l.
+Proof. exact kids_functional. Qed.
+Print Assumptions C04_links_children_list_unique.
+
+Theorem C04_links_abs_detach : forall h a p l, wf h -> kids h p l ->
+  kids (detach h a) p (filter (fun x => negb (Nat.eqb x a)) l).
+Proof. exact arena_abs_detach. Qed.
+Print Assumptions C04_links_abs_detach.
+
+Theorem C04_links_abs_append : forall dbg h s n, wf h ->
+  exists h', Arena.append dbg h s n = Ok h' /\
+    (forall l, kids h s l -> kids h' s (filter (fun x => negb (Nat.eqb x n)) l ++ [n])) /\
+    (forall p l, p <> s -> kids h p l -> kids h' p (filter (fun x => negb (Nat.eqb x n)) l)).
+Proof. exact arena_abs_append. Qed.
+Print Assumptions C04_links_abs_append.
+
+(* ---- the executable predicate the check evaluates on the implementation's dumps is sound *)
+Theorem C04_links_wf_b_sound : forall d, wf_b (List.length d) (heap_of_dump d) = true -> wf (heap_of_dump d).
+Proof. exact wf_b_dump_sound. Qed.
+Print Assumptions C04_links_wf_b_sound.
+
 (* ---- audits (Gen/AuditArena.v is regenerated from /repo/src on every run) *)
 Theorem C04_links_audit_no_other_link_write : link_writes = [] /\ arena_tree_unsafe = 0.
 Proof. split; reflexivity. Qed.
